@@ -65,7 +65,7 @@ package layer
 //@ func (n *node) Lookup
 //@   props C07,C02
 //@   requires n.fs != nil && out != nil && n.fs.r != nil && n.fs.s != nil
-//@   assume before "ino, err := n.fs.inodeOfID(tn.id)" : tn != nil
+//@   assume before "n.fs.inodeOfID(tn.id)" : tn != nil
 //@   ensures[C07] n.id == n.fs.rootID && (name == estargz.PrefetchLandmark || name == estargz.NoPrefetchLandmark) ==> result0 == nil && result1 == syscall.ENOENT
 //@   ensures[C07] hasPrefix(name, whiteoutPrefix) ==> result0 == nil && result1 == syscall.ENOENT
 //@   ensures[C07] result1 == 0 && newInodes == old(newInodes) + 1 && newInodeOps == tagof("*whiteout") ==> childErr(mdRef(payload(n.fs.r)), n.id, name)
@@ -186,8 +186,8 @@ package layer
 //@ func (r *Resolver) resolveBlob
 //@   props C12
 //@   requires r.blobCache != nil && r.resolver != nil
-//@   assume after "c, done, ok := r.blobCache.Get(name)" : ok ==> implements(c, "remote.Blob")
-//@   assume after "cachedB, done, added := r.blobCache.Add(name, b)" : implements(cachedB, "remote.Blob")
+//@   assume after "r.blobCache.Get(name)" : ok ==> implements(c, "remote.Blob")
+//@   assume after "r.blobCache.Add(name, b)" : implements(cachedB, "remote.Blob")
 //@   ensures[C12] retErr == nil ==> result0 != nil && result0.done != nil && result0.Blob != nil && owed == old(owed) + 1
 //@   ensures[C12] retErr != nil ==> owed == old(owed)
 // newLayer takes ownership of the blob reference (it is released by the layer's close)
@@ -198,8 +198,8 @@ package layer
 //@ func (r *Resolver) Resolve
 //@   props C12
 //@   requires r.layerCache != nil && r.blobCache != nil && r.resolver != nil && r.resolveLock != nil && r.backgroundTaskManager != nil && r.metadataStore != nil
-//@   assume after "c, done, ok := r.layerCache.Get(name)" : ok ==> typeof(c) == tagof("*layer") && payload(c) != nil && as(c, "*layer").blob != nil && as(c, "*layer").blob.Blob != nil
-//@   assume after "cachedL, done2, added := r.layerCache.Add(name, l)" : typeof(cachedL) == tagof("*layer") && payload(cachedL) != nil
+//@   assume after "r.layerCache.Get(name)" : ok ==> typeof(c) == tagof("*layer") && payload(c) != nil && as(c, "*layer").blob != nil && as(c, "*layer").blob.Blob != nil
+//@   assume after "r.layerCache.Add(name, l)" : typeof(cachedL) == tagof("*layer") && payload(cachedL) != nil
 //@   ensures[C12] retErr != nil ==> owed == old(owed)
 //@   ensures[C12] retErr == nil ==> result0 != nil && (owed == old(owed) + 1 || owed == old(owed) + 2)
 // helpers whose bodies are not followed here (assumed: they take no reference from the layer / blob caches)
